@@ -42,8 +42,8 @@ bool InstrumentMetaDataValidator::ValidateName(nostd::string_view name) const
   return std::regex_match(name.begin(), name.end(), name_reg_key_);
 #else
   const size_t kMaxSize = 255;
-  // size atmost 255 chars
-  if (name.size() > kMaxSize)
+  // size atmost 255 chars, and at least the first char
+  if (name.empty() || name.size() > kMaxSize)
   {
     return false;
   }
@@ -71,9 +71,10 @@ bool InstrumentMetaDataValidator::ValidateUnit(nostd::string_view unit) const
   {
     return false;
   }
-  // all should be ascii chars.
-  return !std::any_of(unit.begin(), unit.end(),
-                      [](char c) { return static_cast<unsigned char>(c) > 127; });
+  // all should be ascii chars (0x01 - 0x7F, as in kInstrumentUnitPattern).
+  return !std::any_of(unit.begin(), unit.end(), [](char c) {
+    return c == '\0' || static_cast<unsigned char>(c) > 127;
+  });
 #endif
 }
 
